@@ -653,6 +653,14 @@ pub fn run(cx: &mut Ctx) {
     for s in &vals {
         case_cow(cx, s);
     }
+    // … and over the white-space characters a quoted string may contain (CR, LF, SP, HT – the line folding of
+    // RFC 2616 is NOT part of unquoting: both paths hand the characters on as they are)
+    let mut wsvals: Vec<String> = vec![];
+    all_strings(&['"', '\r', '\n', ' ', '\t', 'a', '\\'], if thorough { 6 } else { 5 }, &mut |s| wsvals.push(s.to_string()));
+    for s in &wsvals {
+        case_cow(cx, s);
+    }
+    cx.exhaustive.push("both unquoting paths on every string of length <= 5 (6) over {\" CR LF SP HT a \\}".into());
     // partially consumed iterators: every string up to length 5 (6 thorough) x every number of next() calls
     for s in &vals {
         let n = s.chars().count();
